@@ -71,8 +71,8 @@ prop("C03",
      min_nontrivial=500)
 
 prop("C04",
-     quick=[plain("TestC04Enum", env={"VERIF_ENUM_LEN": 4}, shards=4), plain("TestC04Variants", env={"VERIF_ENUM_LEN": 4}), plain("TestC04LexBroken"), rapid("TestC04Random", 60000), rapid("TestC04Literals", 60000), plain("TestC04Runs")],
-     thorough=[plain("TestC04Enum", env={"VERIF_ENUM_LEN": 6}, shards=16, timeout="3h"), plain("TestC04Variants", env={"VERIF_ENUM_LEN": 5}, shards=8), plain("TestC04LexBroken"), rapid("TestC04Random", 600000, shards=12), rapid("TestC04Literals", 600000, shards=4), plain("TestC04Runs")],
+     quick=[plain("TestC04Enum", env={"VERIF_ENUM_LEN": 4}, shards=4), plain("TestC04Variants", env={"VERIF_ENUM_LEN": 4}), plain("TestC04LexBroken"), plain("TestC04NearWhitespace"), rapid("TestC04Random", 60000), rapid("TestC04Literals", 60000), plain("TestC04Runs")],
+     thorough=[plain("TestC04Enum", env={"VERIF_ENUM_LEN": 6}, shards=16, timeout="3h"), plain("TestC04Variants", env={"VERIF_ENUM_LEN": 5}, shards=8), plain("TestC04LexBroken"), plain("TestC04NearWhitespace"), rapid("TestC04Random", 600000, shards=12), rapid("TestC04Literals", 600000, shards=4), plain("TestC04Runs")],
      rule="(a) every token sequence over the 25-symbol token alphabet up to the length bound, rendered with single spaces: Compile must accept it iff the CFG recogniser (ABNF transcribed, no precedence) derives it; (b) 4 lexeme/whitespace variants of every sentence; (c) lexically broken texts in 5 contexts, and JSON literals / quoted identifiers with 0-2 character-level edits (appended junk, deleted/duplicated/inserted characters) decided by the standard library's JSON decoder; (d) random CFG sentences of 6-45 tokens and their 1-2 token-edit mutants (delete/insert/duplicate/swap/replace/drop-separator), membership decided by the recogniser. Accepted sentences are additionally searched on null and on a fixed document and must agree with the reference evaluator (no 'compiled into something broken'). Non-trivial: a sentence, or a near-miss non-sentence (one deletion or replacement away from a sentence, by lookup in the enumerated sentence sets; by construction for mutants). Accepted non-sentences explained by the open findings KF-P6/KF-P7 are counted under excluded_known.",
      technique="language-equality differential: exhaustive token-sequence enumeration and random sentences/mutants vs a CFG recogniser transcribed from the ABNF",
      level_text="Both directions (accepts non-sentence, rejects sentence) are violations. Exhaustive to the bound (quick: all 406,900 sequences of <= 4 tokens; thorough: all 254 M sequences of <= 6 tokens), random with separator-focused mutants beyond it.",
@@ -87,8 +87,8 @@ prop("C07",
      min_nontrivial=5000)
 
 prop("C08",
-     quick=[plain("TestC08Golden", shards=4), plain("TestC08NonArray"), rapid("TestC08Random", 40000), rapid("TestC08Pairs", 40000)],
-     thorough=[plain("TestC08Golden", shards=8), plain("TestC08NonArray"), rapid("TestC08Random", 200000, shards=12), rapid("TestC08Pairs", 400000, shards=4)],
+     quick=[plain("TestC08Golden", shards=4), plain("TestC08NonArray"), plain("TestC08Padded"), rapid("TestC08Random", 40000), rapid("TestC08Pairs", 40000)],
+     thorough=[plain("TestC08Golden", shards=8), plain("TestC08NonArray"), plain("TestC08Padded"), rapid("TestC08Random", 200000, shards=12), rapid("TestC08Pairs", 400000, shards=4)],
      rule="every (length, start, stop, step) of the committed CPython golden file (lengths 0..8 x {absent} U [-len-2, len+2] cubed = 34,776 triples incl. step 0, and the 15^3 grid of boundary values up to +/-(2^63-1) and -2^63 for lengths 0..4) on six carriers (root array, field, after a projection, with a right-hand side, []float64 and []string typed slices); all non-array values x parameter grid incl. step 0; random lengths <= 200 with random 64-bit parameters against the reference slice model; expressions with two or three slices evaluated side by side, nested or piped (10 forms) against the reference evaluator. Expected element lists come from real Python (golden) / big-integer re-implementation of PySlice_AdjustIndices. Non-trivial: all (distinct by carrier, length, parameters); classes: non-empty, empty, step-0 error, non-array.",
      technique="differential vs CPython slicing (golden file generated by the real Python) and a big-integer reference model; exhaustive window + boundary grid + random",
      level_text="The window and the boundary grid are enumerated completely; larger lengths/parameters randomly.",
